@@ -269,10 +269,11 @@ Plan genStatus(const std::string& prop, int tier, uint64_t batchSeed, uint64_t i
             {
                 Item m("m");
                 const uint64_t ks = r.below(10);
+                const int64_t extra = r.chance(1, 12) ? r.range(200, 1300) : r.range(0, 60);  // status payloads beyond 255 bytes too
                 if (ks < 4)
-                    m.set("kind", wire::K_CMSTAT).set("len", static_cast<int64_t>(minLenOf(wire::K_CMSTAT)) + r.range(0, 60));
+                    m.set("kind", wire::K_CMSTAT).set("len", static_cast<int64_t>(minLenOf(wire::K_CMSTAT)) + extra);
                 else if (ks < 8 && !ifs.empty())
-                    m.set("kind", wire::K_IFSTAT).set("len", static_cast<int64_t>(minLenOf(wire::K_IFSTAT)) + r.range(0, 30)).set("pifid", ifs[r.below(ifs.size())]);
+                    m.set("kind", wire::K_IFSTAT).set("len", static_cast<int64_t>(minLenOf(wire::K_IFSTAT)) + extra / 2).set("pifid", ifs[r.below(ifs.size())]);
                 else if (ks < 9)
                     m.set("kind", wire::K_CAN).set("len", 16 + r.range(0, 8));
                 else
